@@ -284,7 +284,9 @@ def spec_from_seed(run_seed, tier):
     # sibling inputs: the same tokens with other weights / another law / other parameters in the same history, so that state
     # keyed by part of a string (token text, printed form without extensions, family name) collides between two objects
     if n_in >= 2 and inputs[0]["kind"] == "molecule" and rnd.random() < 0.4:
-        sib = _sibling(rnd, inputs[0]["text"])
+        from .. import siblings
+
+        sib = siblings.respell(rnd, inputs[0]["text"]) if rnd.random() < 0.4 else siblings.retune(rnd, inputs[0]["text"])
         if sib is not None and sib != inputs[0]["text"]:
             inputs[rnd.randrange(1, n_in)] = {"text": sib, "kind": "molecule", "sibling_of": 0}
     n_ops = rnd.choice([8, 10, 14, 20, 28])
@@ -307,70 +309,6 @@ def spec_from_seed(run_seed, tier):
                 "max": 6}
     return {"kind": "history", "prop": "C10", "inputs": inputs, "ops": ops, "global_seed": rnd.randrange(1 << 30), "enumerate": enum,
             "fresh_interpreter": tier == "thorough" and rnd.random() < 0.03}
-
-
-def _sibling(rnd, text):
-    """A second valid input made from `text` by changing only extensions: scalar weights, distribution parameters or family."""
-    import re
-
-    mode = rnd.choice(["weights", "params", "family", "weights+params"])
-    out = text
-    if "weights" in mode:
-        def rw(m):
-            return "|" + rnd.choice(["2", "5", "0.5", "7", "1"]) + "|]"
-
-        out2 = re.sub(r"\|\s*[0-9.]+(?:e[+-]?[0-9]+)?\s*\|\]", rw, out)
-        if out2 == out:
-            # no scalar weight written: give the first descriptor of the first repeat unit one (terminals stay as they are)
-            m = re.search(r"\{\[[<>$]?[0-9]*\]\s*[^\[{};,]*\[([<>$][0-9]*)\]", out)
-            if m:
-                out2 = out[: m.end(1)] + "|3|" + out[m.end(1):]
-        out = out2
-    if "params" in mode:
-        def rp(m):
-            fam = m.group(1)
-            try:
-                nums = [float(x) for x in m.group(2).split(",")]
-            except ValueError:
-                return m.group(0)
-            if fam == "flory_schulz":
-                nums = [min(0.9, nums[0] * 0.7)]
-            elif fam == "uniform":
-                nums = [int(nums[0] * 1.5) + 1, int(nums[1] * 1.5) + 3]
-            elif fam == "log_normal":
-                nums = [nums[0] * 1.5, nums[1]]
-            elif fam == "gauss":
-                nums = [nums[0] * 1.5, nums[1] * 0.5]
-            else:
-                nums = [x * 1.5 for x in nums]
-            return "|%s(%s)|" % (fam, ", ".join(repr(x) for x in nums))
-
-        out = re.sub(r"\|([a-z_]+)\(([^)]*)\)\|", rp, out)
-    if mode == "family":
-        def rf(m):
-            fam = m.group(1)
-            try:
-                nums = [float(x) for x in m.group(2).split(",")]
-            except ValueError:
-                return m.group(0)
-            mean = {"flory_schulz": lambda: 2.0 / max(nums[0], 1e-3), "uniform": lambda: (nums[0] + nums[1]) / 2,
-                    "schulz_zimm": lambda: nums[1]}.get(fam, lambda: nums[0])()
-            mean = max(5.0, min(mean, 3000.0))
-            new = rnd.choice([f for f in ("gauss", "poisson", "uniform", "log_normal") if f != fam])
-            if new == "gauss":
-                return "|gauss(%r, %r)|" % (mean, round(mean * 0.2, 3))
-            if new == "poisson":
-                return "|poisson(%r)|" % mean
-            if new == "uniform":
-                return "|uniform(%d, %d)|" % (int(mean * 0.5) + 1, int(mean * 1.5) + 3)
-            return "|log_normal(%r, 1.2)|" % mean
-
-        out = re.sub(r"\|([a-z_]+)\(([^)]*)\)\|", rf, out)
-    try:
-        reader.read_molecule(out).build()
-    except Exception:
-        return None
-    return out
 
 
 class _Client:
